@@ -314,6 +314,33 @@ fn check_meta(bytes: &[u8], what: &str) -> Result<bool, String> {
     }
 }
 
+/// Entry point of the libFuzzer target (fuzz/fuzz_targets/codec.rs): byte 0 selects the decoder, the
+/// rest is its input. Same oracle as the proptest cases: the library must accept / refuse exactly as
+/// the reference decoder does, decode the same fields, not panic, not over-allocate.
+pub fn fuzz_one(data: &[u8]) -> Result<(), String> {
+    let Some((&sel, rest)) = data.split_first() else { return Ok(()) };
+    let r = catch_panic(|| match sel % 9 {
+        0 => {
+            // a metadata slot is exactly 4096 bytes: pad / cut so that the field logic is reached
+            let mut slot = rest.to_vec();
+            slot.resize(4096, 0);
+            check_meta(&slot, "fuzz: metadata slot").map(|_| ())
+        }
+        1 => check_meta(rest, "fuzz: metadata bytes").map(|_| ()),
+        2 => check_header(rest).map(|_| ()),
+        3 => check_page(rest).map(|_| ()),
+        4 => check_change(ChangeTy::RawU16, rest).map(|_| ()),
+        5 => check_change(ChangeTy::RawU64, rest).map(|_| ()),
+        6 => check_change(ChangeTy::RawA16, rest).map(|_| ()),
+        7 => check_change(ChangeTy::BaseU32, rest).map(|_| ()),
+        _ => check_change(ChangeTy::BasePcoU64, rest).map(|_| ()),
+    });
+    match r {
+        Ok(r) => r,
+        Err(p) => Err(format!("decoder {} panicked: {p}", sel % 9)),
+    }
+}
+
 // ------------------------------------------------------------------ header / page
 
 fn ref_format(b: u8) -> Option<Format> {
